@@ -72,7 +72,7 @@ func leafAlphabet(k int) []Leaf {
 		kv   J
 	}
 	strKw := []kwv{{"minLength0", J{"minLength": 0}}, {"minLength1", J{"minLength": 1}}, {"minLength3", J{"minLength": 3}}, {"maxLength0", J{"maxLength": 0}}, {"maxLength2", J{"maxLength": 2}},
-		{"pattern", J{"pattern": "^a+$"}}, {"enum", J{"enum": A{"aa", "b"}}}}
+		{"pattern", J{"pattern": "^a+$"}}, {"enum", J{"enum": A{"aa", "b"}}}, {"enum-special", J{"enum": A{"<=", "a&b", "q\"x", "b\\s"}}}}
 	numKw := func(fl bool) []kwv {
 		one, five := interface{}(1), interface{}(5)
 		if fl {
